@@ -12,7 +12,9 @@ A bucket is a set of object keys. For a request (prefix, delimiter ∈ {"", "/"}
 Every page holds at most max-keys items, all of them expected ones; a client that follows the
 continuation (next marker / continuation token, or the last key when there is no delimiter) sees
 a last, untruncated page within `#keys + 2` requests and has then received every expected item
-exactly once.  The judges are the executable form, run over the IMPLEMENTATION's pages.
+exactly once.  A client that starts after a key (marker / start-after, also when start-after is sent again
+beside every continuation token) is never served an item twice and also sees the last page within
+`#keys + 2` requests (`resumeJudge`).  The judges are the executable form, run over the IMPLEMENTATION's pages.
 -/
 import SwV.Model.C27
 namespace SwV.Spec.C27
@@ -98,5 +100,31 @@ def walkJudge (ks : List (List Bytes)) (pfx : Bytes) (delimSlash contNext : Bool
   else if !finished then some "pagination/not-terminating"
   else if wantK.any (fun w => gotK.count w == 0) ∨ wantP.any (fun w => gotP.count w == 0) then some "pagination/key-missing"
   else some "pagination/key-duplicated-or-foreign"
+
+/-- the walk ended with an untruncated page -/
+def finishedWalk (pages : List Page) : Bool :=
+  match pages.getLast? with
+  | some p => !p.trunc
+  | none => false
+
+/-- no element occurs twice -/
+def noRepeat : List Bytes → Bool
+  | [] => true
+  | x :: r => !r.contains x && noRepeat r
+
+/-- Judge of a pagination that STARTS AFTER A KEY (V1 marker, V2 start-after — sent once or re-sent beside the
+    continuation token on every request, as SDK paginators do) and then follows what the pages return. Which keys
+    lie "after" a key depends on the enumeration order, so only the order-free part of "a client that continues
+    from the returned continuation token enumerates every matching key exactly once" is judged here: no item is
+    served twice, and a last, untruncated page arrives within `#keys + 2` requests (`maxKeys ≥ 1`). Independent of
+    the model: stated over the implementation's pages and the bucket's key count only. -/
+def resumeJudge (ks : List (List Bytes)) (pfx : Bytes) (delimSlash contNext : Bool) (maxKeys : Nat) (pages : List Page) : Option String :=
+  if maxKeys = 0 ∨ (!contNext ∧ delimSlash) then none else
+  let got := pages.flatMap (·.keys) ++ pages.flatMap (·.pfxs)
+  let overlong : Bool := decide (pages.length ≥ ks.length + 2) && !finishedWalk pages
+  if !overlong ∧ noRepeat got then none
+  else if (excl ks pfx).prefixHasDir then some "listFilerEntries/marker-relative-to-prefix-directory"
+  else if overlong then some "pagination/does-not-terminate"
+  else some "pagination/key-repeated"
 
 end SwV.Spec.C27
